@@ -256,20 +256,20 @@ def models_for(u, tables, sos_real):
         return _MODELS[key]
     import warnings
 
-    import torch
-    from pydrobert.torch.modules import (
-        ExtractableShallowFusionLanguageModel,
-        LookupLanguageModel,
-        MixableShallowFusionLanguageModel,
-        ShallowFusionLanguageModel,
-    )
-
-    from ..doubles.tablelm import TableLM
-
     V, L, K1, K2 = u["V"], u["L"], u["K1"], u["K2"]
     sym = tables["sos"]
     with warnings.catch_warnings():
         warnings.simplefilter("ignore")
+        import torch
+        from pydrobert.torch.modules import (
+            ExtractableShallowFusionLanguageModel,
+            LookupLanguageModel,
+            MixableShallowFusionLanguageModel,
+            ShallowFusionLanguageModel,
+        )
+
+        from ..doubles.tablelm import TableLM
+
         d1 = prob_dicts(tables["t1"], K1, sym, sos_real)
         d2 = prob_dicts(tables["t2"], K2, sym, sos_real)
 
